@@ -3,7 +3,8 @@ import H2V.Lemmas.ConnFlowPWire
 import H2V.Lemmas.CodecReader
 /-
   C08 (no panic) — connection layer, part 4: what `FramedRead::poll_next` guarantees about the frames it
-  yields (`WireOK`): a WINDOW_UPDATE increment is at most 2^31-1 (`ConnFlowP.decodeFrame_ok`), and the
+  yields (`WireOK`): a WINDOW_UPDATE increment and a SETTINGS_INITIAL_WINDOW_SIZE are at most 2^31-1
+  (`ConnFlowP.decodeFrame_ok`), and the
   payload of a DATA frame (with its padding) is at most the frame length, which passed the size check of the
   length-delimited decoder (`max_frame_size ≤ 2^24-1`).
 -/
@@ -148,6 +149,7 @@ theorem wireOK_of {n : Nat} {f : Frame.Frame} (h1 : ConnFlowP.FrameOk f) (h2 : D
     have : (2147483647 : Nat) = Generated.Consts.MAX_WINDOW_SIZE := rfl
     rw [← this]
     exact Nat.le_trans h2 (by omega)
+  · exact h1
   · exact h1
 
 theorem drain_wire : ∀ (fuel : Nat) (r : Reader) (acc : List Item), RB r → (∀ i ∈ acc, WireItem i) →
